@@ -292,6 +292,49 @@ def parse_utils(repo, t):
     t['SEARCH_ZONE'] = int(m.group(1).replace('_', ''))
 
 
+def parse_md(repo, t):
+    """mess detector: the order of the detector bank, the period table and default threshold of mess_ratio, and every
+    numeric literal of every plugin (in source order) -- Model/Md.v is written for exactly these"""
+    src = strip_comments(open(os.path.join(repo, 'src/md.rs'), encoding='utf-8').read())
+    m = re.search(r'let mut detectors: Vec<Box<dyn MessDetectorPlugin>> = vec!\[(.*?)\];', src, re.S)
+    if not m:
+        die("md.rs: detector bank not recognised")
+    t['MD_DETECTORS'] = re.findall(r'Box::<(\w+)>::default\(\)', m.group(1))
+    if not t['MD_DETECTORS']:
+        die("md.rs: empty detector bank")
+    m = re.search(r'match decoded_sequence\.chars\(\)\.count\(\) \{\s*\.\.=(\d+) => (\d+),\s*(\d+)\.\.=(\d+) => (\d+),\s*_ => (\d+),\s*\}', src)
+    if not m:
+        die("md.rs: early_calc_period table not recognised")
+    t['MD_PERIODS'] = [int(x) for x in m.groups()]
+    m = re.search(r'maximum_threshold\.unwrap_or\(OrderedFloat\(([0-9.]+)\)\)', src)
+    if not m:
+        die("md.rs: default threshold not recognised")
+    t['MD_DEFAULT_THRESHOLD'] = m.group(1)
+    if not re.search(r'if index % early_calc_period == early_calc_period - 1 \{\s*let early_mess_ratio: f32 = detectors\.iter\(\)\.map\(\|x\| x\.ratio\(\)\)\.sum\(\);\s*'
+                     r'if early_mess_ratio >= maximum_threshold \{', src):
+        die("md.rs: early exit shape not recognised")
+    if not re.search(r'\.chars\(\)\s*\.chain\(std::iter::once\(\'\\n\'\)\)\s*\.enumerate\(\)', src):
+        die("md.rs: scan over chars + newline not recognised")
+    psrc = strip_comments(open(os.path.join(repo, 'src/md/plugins.rs'), encoding='utf-8').read())
+    lits = []
+    blocks = re.split(r'impl MessDetectorPlugin for (\w+) \{', psrc)
+    # blocks = [prefix, name1, body1+..., name2, ...]
+    for i in range(1, len(blocks), 2):
+        name, body = blocks[i], blocks[i + 1]
+        # cut at the next struct / impl Default declaration
+        body = re.split(r'\n(?:#\[derive|pub\(super\) struct|impl Default for)', body)[0]
+        nums = re.findall(r'(?<![\w.])\d+(?:\.\d+)?(?![\w.])', body)
+        lits.append((name, nums))
+    if [n for n, _ in lits] != sorted(set(n for n, _ in lits), key=[n for n, _ in lits].index) or not lits:
+        die("plugins.rs: plugin impl blocks not recognised")
+    t['MD_LITERALS'] = lits
+    ssrc = strip_comments(open(os.path.join(repo, 'src/md/structs.rs'), encoding='utf-8').read())
+    flags = re.findall(r'const (\w+)\s*= 0b([01_]+);', ssrc)
+    if not flags:
+        die("structs.rs: flag constants not recognised")
+    t['MD_FLAGS'] = [(n, len(b.replace('_', '')) - 1 - b.replace('_', '').index('1')) for n, b in flags]
+
+
 def parse_assets(repo, t):
     src = strip_comments(open(os.path.join(repo, 'src/assets.rs'), encoding='utf-8').read())
     body = static_body(src, 'LANGUAGES')
@@ -640,6 +683,14 @@ def emit_coq(t, path):
     w('')
     w('Definition RE_LITERAL : string := %s.' % coq_str(t['RE_LITERAL']))
     w('')
+    w('(* mess detector (src/md.rs, src/md/plugins.rs, src/md/structs.rs) *)')
+    w('Definition MD_DETECTORS : list string := ' + coq_list([coq_str(x) for x in t['MD_DETECTORS']], 2) + '.')
+    w('Definition MD_PERIODS : list N := ' + coq_list([str(x) for x in t['MD_PERIODS']], 8) + '.')
+    w('Definition MD_DEFAULT_THRESHOLD : string := %s.' % coq_str(t['MD_DEFAULT_THRESHOLD']))
+    w('Definition MD_LITERALS : list (string * list string) := ' +
+      coq_list(['(%s, %s)' % (coq_str(n), coq_list([coq_str(x) for x in l], 12, '     ')) for n, l in t['MD_LITERALS']], 1) + '.')
+    w('Definition MD_FLAGS : list (string * N) := ' + coq_list(['(%s, %d)' % (coq_str(n), b) for n, b in t['MD_FLAGS']], 4) + '.')
+    w('')
     w('Definition UTF8_CHAR_CATEGORY : list N := ' + coq_list([str(x) for x in t['UTF8_CHAR_CATEGORY']], 32) + '.')
     w('Definition UTF8_STATE_TRANSITIONS : list N := ' + coq_list([str(x) for x in t['UTF8_STATE_TRANSITIONS']], 12) + '.')
     for n in ('INITIAL_STATE', 'ACCEPT_STATE', 'REJECT_STATE', 'REJECT_STATE_WITH_BACKUP'):
@@ -694,6 +745,7 @@ def main():
         t = parse_consts(repo)
         parse_utils(repo, t)
         parse_assets(repo, t)
+        parse_md(repo, t)
         parse_cached(repo, t)
         parse_encoding_crate(repo, t)
         emit_coq(t, outv)
